@@ -180,6 +180,14 @@ def run_case(acc: Acc, seed: int, idx: int) -> None:
     case = {"seed": seed, "idx": idx, "route": route, "target": target, "existed": existed, "overwrite": overwrite, "patterns": [p[0] for p in pats]}
     pmap = {_re.compile(rx): Path(f"tmpl/{tid}.zot") for tid, rx, _v in pats}
     cfg = db.write_config(root.parent / "cfg.yml", template_pattern_map={rx: f"tmpl/{tid}.zot" for tid, rx, _v in pats}, vim_exe="true", keep_alive_file=str(root.parent / "keep_alive"))
+    # the edit route may name several targets: an EXISTING page before and / or after the judged one
+    extra_before, extra_after = [], []
+    if route == "cli_edit" and rel not in ("already_there.zo", "sub/also_there.zo"):
+        for name, lst in (("already_there.zo", extra_before), ("sub/also_there.zo", extra_after)):
+            if rng.random() < 0.5:
+                (root / name).parent.mkdir(parents=True, exist_ok=True)
+                (root / name).write_text(f"# An existing page\n\n- 200101#E{len(name) % 10} note of {name}\n")
+                lst.append(name)
     before = {str(f.relative_to(root)): f.read_bytes() for f in sorted(root.rglob("*")) if f.is_file()}
     for call in (1, 2):
         _S["viol"].clear()
@@ -198,7 +206,9 @@ def run_case(acc: Acc, seed: int, idx: int) -> None:
                     err = f"rc={r.rc} {r.err[-300:]} {r.exc!r}"
             else:
                 acc.count("route.cli_edit")
-                r = db.cli(root, "edit", target, config=cfg)
+                r = db.cli(root, "edit", *extra_before, target, *extra_after, config=cfg)
+                if extra_before or extra_after:
+                    acc.count("route.cli_edit_several_targets")
                 if r.rc != 0:
                     err = f"rc={r.rc} {r.err[-300:]}"
         except Exception as e:
